@@ -269,16 +269,8 @@ func runC20(ctx *runCtx) {
 		cases = append(cases, genC20(rng))
 	}
 	for _, cc := range cases {
-		sh, w := "", ""
 		tc := time.Now()
-		func() {
-			defer func() {
-				if r := recover(); r != nil {
-					sh, w = "panic", fmt.Sprint(r)
-				}
-			}()
-			sh, w = runC20Case(cc)
-		}()
+		sh, w := guarded(60*time.Second, func() (string, string) { return runC20Case(cc) })
 		rep.eval(fmt.Sprintf("%+v", cc))
 		if d := time.Since(tc); d > time.Second {
 			rep.note("slow case (%v): %+v", d.Round(100*time.Millisecond), cc)
